@@ -155,6 +155,19 @@ package xmpp
 //@   ensures[C07] handlerCalls <= 1
 //@   ensures[C07] autoReply ==> handlerCalls == 1
 
+// An error that ends the session is never turned into a nil result.
+//@ func (*Session).sendError
+//@   requires err != nil
+//@   ensures[C08] e != nil
+
+//@ func (*Session).Serve
+//@   ghost lastErr error
+//@   callsite (context.Context).Done#1
+//@     before: lastErr = nil
+//@   callsite handleInputStream#1
+//@     after: lastErr = ret0
+//@   ensures[C08] lastErr != nil && lastErr != io.EOF ==> err != nil
+
 // BEGIN enrolment C09 (generated by the safety sweep: every safety obligation of these functions is discharged)
 //@ nopanic [C09] (*Session).Close
 //@ nopanic [C09] (*Session).Conn
